@@ -911,9 +911,9 @@ func propC10(c *Ctx) {
 			c.Run("C10.control", [][]byte{[]byte(ver), in.universe, in.evjson}, "C10.control", "", desc)
 			c.Run("C10.needed", [][]byte{[]byte(ver), in.universe, in.evjson}, "C10.needed", "", desc)
 		}
-		c.Run("C10.split", [][]byte{[]byte(ver), in.universe, srSetsStr(in.sets), in.evjson}, "C10.split", "", desc)
+		c.Run("C10.split", [][]byte{[]byte(ver), in.universe, srSetsStr(in.sets), in.evjson}, "C10.split", "C10.prop.split", desc)
 		if algo != gmsl.StateResV1 {
-			c.Run("C10.authdiff_new", [][]byte{[]byte(ver), in.universe, srSetsStr(in.sets), srCSV(in.auth), in.evjson}, "C10.authdiff_new", "", desc)
+			c.Run("C10.authdiff_new", [][]byte{[]byte(ver), in.universe, srSetsStr(in.sets), srCSV(in.auth), in.evjson}, "C10.authdiff_new", "C10.prop.authdiff", desc)
 		}
 
 		// current entry point
